@@ -55,6 +55,8 @@ var synthOpts = map[string]Target{
 	"listPages":     {Oracle: true, Callback: "fn"},
 	"newRec":        {Oracle: true, FreshResults: true},
 	"LocalIdentity": {LocalErrorIdentity: []string{"errLimit", "errHalt"}},
+	"decode":        {Oracle: true, OutParams: []string{"v"}},
+	"fillFrom":      {NonNil: true, InstantiateAny: []string{"out"}},
 	"emit":          {Oracle: true, Effect: true},
 	"tryEmit":       {Oracle: true, Effect: true},
 }
@@ -63,11 +65,19 @@ var synthOpts = map[string]Target{
 // the order of their Variables), computed by running the real Go oracle on the
 // arguments of the case.
 var synthOracles = map[string]func(g *gen, args []reflect.Value) []string{
+	"UseFill": func(g *gen, args []reflect.Value) []string {
+		return []string{
+			`(fun (d : string) (r : synth_Rec) => if String.eqb d "" then (r, Some (Err "errors" "no data" [])) else (mk_Rec d (str_len d) (Rec_Tags r) (Rec_M r), None))`,
+			`(fun (d : string) (c : synth_Counter) => if String.eqb d "" then (c, Some (Err "errors" "no data" [])) else (mk_Counter (str_len d) (List.app (Counter_Log c) [d]), None))`}
+	},
+	"StoreOf": func(g *gen, args []reflect.Value) []string {
+		return []string{"string", storeLoad, "(fun m => MemStore_Prefix m)", "(fun m => MemStore_Prefix m)"}
+	},
 	"Effects":    eventOracles,
 	"EffectTail": eventOracles,
 	"UsePages":   pagesOracle,
 	"UseStores": func(g *gen, args []reflect.Value) []string {
-		return []string{"string", `(fun (p k : string) => if String.eqb k "" then ("", Some (Err "errors" "empty key" [])) else (String.append p (String.append ":" k), None))`}
+		return []string{"string", storeLoad}
 	},
 	"LocalIdentity":  pagesOracle,
 	"OwnedPtr":       newRecOracle,
@@ -76,6 +86,8 @@ var synthOracles = map[string]func(g *gen, args []reflect.Value) []string{
 
 // synthHelpers: exported functions of the corpus that are tested through their callers only.
 var synthHelpers = map[string]bool{"NewRec": true, "NewStrSet": true, "PagesOf": true}
+
+const storeLoad = `(fun (p k : string) => if String.eqb k "" then ("", Some (Err "errors" "empty key" [])) else (String.append p (String.append ":" k), None))`
 
 // eventOracles: the world of the corpus is the event log (a list of strings).
 func eventOracles(g *gen, args []reflect.Value) []string {
